@@ -231,3 +231,110 @@ class Body:
     def switch_on(self, bb):
         t = self.blocks[bb]["t"]
         return t if t["k"] == "switch" else None
+
+    def single_def(self, l):
+        ds = self.defs.get(l, [])
+        return ds[0] if len(ds) == 1 else None
+
+    def chase(self, op, depth=0):
+        """follow single-definition temporaries through use/ref/cast/deref to a 'root' description:
+        ('local', name, place) | ('call', term) | ('const', k) | ('binop', stmt) | ('field', place) | ('tmp', place)"""
+        pl = op_place(op)
+        if pl is None:
+            k = op_const(op)
+            return ("const", k) if k is not None else ("tmp", None)
+        l = pl["l"]
+        if self.local_name(l):
+            return ("local", self.local_name(l), pl)
+        d = self.single_def(l)
+        if d is None or depth > 8:
+            return ("tmp", pl)
+        if d[0] == "call":
+            return ("call", d[2])
+        s = d[3]
+        if s["k"] in ("use", "ref", "cast") and s["o"]:
+            return self.chase(s["o"][0], depth + 1)
+        if s["k"] in ("binop", "unop"):
+            return ("binop", s)
+        if s["k"] == "discr":
+            return ("discr", s)
+        return ("tmp", pl)
+
+    def desc(self, op, depth=0):
+        """short text for an operand (variable name, field path, cast, call result, constant)"""
+        pl = op_place(op)
+        if pl is None:
+            k = op_const(op)
+            return k.get("val", "const") if k else "?"
+        l = pl["l"]
+        nm = self.local_name(l)
+        fields = "".join("." + e["f"] for e in pl["p"] if isinstance(e, dict) and "f" in e)
+        if nm:
+            return nm + fields
+        d = self.single_def(l)
+        if d is None or depth > 8:
+            return "tmp" + fields
+        if d[0] == "call":
+            c = d[2]
+            nmc = c["callee"].rsplit("::", 1)[-1]
+            return "%s(%s)%s" % (nmc, ",".join(self.desc(a, depth + 1) for a in c["args"][:3]), fields)
+        s = d[3]
+        if s["k"] in ("use", "ref") and s["o"]:
+            return self.desc(s["o"][0], depth + 1) + fields
+        if s["k"] == "cast" and s["o"]:
+            return "cast(%s)" % self.desc(s["o"][0], depth + 1)
+        if s["k"] == "binop":
+            return "(%s %s %s)" % (self.desc(s["o"][0], depth + 1), s["op"], self.desc(s["o"][1], depth + 1))
+        if s["k"] == "unop":
+            return "%s(%s)" % (s["op"], self.desc(s["o"][0], depth + 1))
+        if s["k"] == "discr":
+            return "discr(%s)" % self.desc(s["o"][0], depth + 1)
+        return "tmp" + fields
+
+    def guards_of(self, bb):
+        """conditions that hold whenever bb executes: for every switch block with an out-edge that edge-dominates bb,
+        returns dicts {sw, taken: 'true'|'false'|value, kind: 'cmp'|'call'|'discr'|'other', op, l, r, lop, rop, term, text}"""
+        out = []
+        if bb not in self.dom:
+            return out
+        for s in sorted(self.dom[bb]):
+            t = self.blocks[s]["t"]
+            if t["k"] != "switch" or s == bb and False:
+                continue
+            succs = set(self.succs_of(s))
+            for y in succs:
+                if y == s:
+                    continue
+                if not (y == bb or self.dominates(y, bb)):
+                    continue
+                if not self.edge_dominates((s, y), bb):
+                    continue
+                vals = [v for v, tgt in t["cases"] if tgt == y]
+                is_other = t["otherwise"] == y
+                if is_other and vals:
+                    continue  # ambiguous
+                g = {"sw": s, "dty": t["dty"], "values": vals, "otherwise": is_other}
+                if t["dty"] == "bool":
+                    g["taken"] = "false" if vals == [0] else "true"
+                else:
+                    g["taken"] = "other" if is_other else vals
+                root = self.chase(t["discr"])
+                g["kind"] = root[0]
+                if root[0] == "binop":
+                    st = root[1]
+                    g["op"] = st["op"]
+                    g["lop"], g["rop"] = st["o"][0], (st["o"][1] if len(st["o"]) > 1 else None)
+                    g["l"] = self.desc(st["o"][0])
+                    g["r"] = self.desc(st["o"][1]) if len(st["o"]) > 1 else ""
+                    g["text"] = "%s %s %s" % (g["l"], st["op"], g["r"])
+                elif root[0] == "call":
+                    c = root[1]
+                    g["call"] = c
+                    g["text"] = "%s(%s)" % (c["callee"], ",".join(self.desc(a) for a in c["args"][:3]))
+                elif root[0] == "discr":
+                    g["text"] = "discr(%s)" % self.desc(root[1]["o"][0])
+                    g["of"] = root[1]["o"][0]
+                else:
+                    g["text"] = self.desc(t["discr"])
+                out.append(g)
+        return out
